@@ -25,6 +25,7 @@ type plan struct {
 	whyCell  string          // the cell without conversion when why == "noconv"
 	params   []reflect.Value // expected parameters, len == ft.NumIn() (variadic tail as its slice)
 	loose    []bool          // per parameter: nil/empty containers not distinguished
+	either   []bool          // per parameter: holds a one-character string -> byte/rune step ("error or that character")
 	nonIdent bool            // some argument needed a non-identity conversion
 	cells    []string        // conversion cells touched
 	shape    string          // fixed|variadic x plain|spread
@@ -55,6 +56,7 @@ func planCall(ft reflect.Type, args []reflect.Value, hasSpread bool, spread refl
 	p.count = "exact"
 	p.params = make([]reflect.Value, nIn)
 	p.loose = make([]bool, nIn)
+	p.either = make([]bool, nIn)
 
 	conv := func(i int, v reflect.Value, T reflect.Type) (reflect.Value, bool) {
 		r := goConvert(v, T)
@@ -76,6 +78,18 @@ func planCall(ft reflect.Type, args []reflect.Value, hasSpread bool, spread refl
 				p.why = "unasserted:" + r.why
 			}
 			return reflect.Value{}, false
+		case cEither:
+			// error or this value: the weak outcome (an error without invocation is admitted,
+			// a call that goes through is compared)
+			if p.out == oOK {
+				p.out = oWeak
+				p.why = "either:" + whyOneChar
+			}
+			if i >= 0 {
+				p.either[i] = true
+			} else {
+				p.either[nIn-1] = true
+			}
 		}
 		if !r.identity {
 			p.nonIdent = true
